@@ -1399,7 +1399,10 @@ func ruleNORM1(c *Ctx) []Ob {
 			arg := call.Common().Args[1]
 			okAll := true
 			why := ""
-			for _, og := range origins(arg) {
+			for _, og := range c.deepOrigins(arg) {
+				if isNilConst(og) {
+					continue // the wrapper's error path
+				}
 				ta, isTA := og.(*ssa.TypeAssert)
 				if !isTA {
 					okAll, why = false, "not the result of a criteria visitor"
@@ -1419,7 +1422,7 @@ func ruleNORM1(c *Ctx) []Ob {
 				// and the visited criteria is the query's own
 				ac, _ := c.visitCallOf(ta.X)
 				if ac != nil && ac.Common().IsInvoke() {
-					for _, ro := range origins(ac.Common().Value) {
+					for _, ro := range c.paramSources(ac.Common().Value, 0) {
 						rc, isCall := ro.(*ssa.Call)
 						if !isCall || staticCallee(rc) == nil || c.declared(staticCallee(rc)) != c.lookupMethod("query", "Query", "Criteria") {
 							okAll, why = false, "a criteria that was already rewritten by another visitor"
@@ -2021,6 +2024,189 @@ func rulePLAN9(c *Ctx) []Ob {
 	}
 	if n == 0 {
 		o.add(UNDECIDED, "range-table", "-", "criteria->range table not found")
+	}
+	return o.list
+}
+
+// ---------------------------------------------------------------- ADP8
+
+// ADP8: what a store.Cursor implementation hands out in store.Item stays valid
+// after the cursor moves. badger's Item.Key() is only valid until the next
+// iteration step (the buffer is recycled), bbolt's keys live as long as the
+// transaction: the adapter must copy (KeyCopy), otherwise callers that keep a
+// key across Next - or hand it to Tx.Delete, which keeps the slice until commit
+// - act on the wrong key on badger only.
+func ruleADP8(c *Ctx) []Ob {
+	o := newObs(c, "ADP8")
+	for _, fn := range c.storeImpls("Cursor", "Item") {
+		key := c.fname(fn) + "/returned key outlives the cursor position"
+		bad := ""
+		info := ""
+		for _, b := range fn.Blocks {
+			for _, in := range b.Instrs {
+				call, ok := in.(*ssa.Call)
+				if !ok {
+					continue
+				}
+				switch calleeFullName(call) {
+				case "(*github.com/dgraph-io/badger/v4.Item).Key":
+					// does it flow into the returned item's Key?
+					for _, r := range realReferrers(call) {
+						switch x := r.(type) {
+						case *ssa.Store:
+							if _, f, n := fieldOfAddr(x.Addr); f == "Key" && n != nil && c.libNamedIs(n, "store", "Item") {
+								bad = relPath(c, call.Pos())
+							}
+						case *ssa.Return:
+							bad = relPath(c, call.Pos())
+						}
+					}
+				case "(*github.com/dgraph-io/badger/v4.Item).Value":
+					info = relPath(c, call.Pos())
+				}
+			}
+		}
+		if bad != "" {
+			o.add(VIOLATED, key, bad, "the adapter returns badger's Item.Key(), which is only valid until the iterator advances: a key kept across Next, or passed to Tx.Delete (badger keeps the slice until Commit), later designates another entry - DropIndex on badger leaves most of the index behind while bbolt removes it")
+		} else {
+			o.add(OK, key, relPath(c, fn.Pos()), "keys handed out by the cursor are copies / live as long as the transaction")
+		}
+		if info != "" {
+			o.add(INFO, c.fname(fn)+"/value obtained through Item.Value(fn)", info, "the value slice escapes the callback it is documented to be valid in (no failing input known)")
+		}
+	}
+	return o.list
+}
+
+// ---------------------------------------------------------------- ALIAS1
+
+// sharedSlice reports whether v may be - without a copy and with its spare
+// capacity - a slice that lives in a struct field or a package variable.
+func (c *Ctx) sharedSlice(v ssa.Value, depth int, seen map[ssa.Value]bool) (string, bool) {
+	if depth > 4 {
+		return "", false
+	}
+	for _, og := range c.paramSources(v, 0) {
+		if seen[og] {
+			continue
+		}
+		seen[og] = true
+		switch x := og.(type) {
+		case *ssa.UnOp:
+			if x.Op != token.MUL {
+				continue
+			}
+			if _, f, n := fieldOfAddr(x.X); n != nil {
+				return "field " + namedName(n) + "." + f, true
+			}
+			if g, ok := x.X.(*ssa.Global); ok {
+				return "package variable " + g.Name(), true
+			}
+		case *ssa.Slice:
+			if x.Max != nil {
+				continue // capacity clipped: an append reallocates
+			}
+			if _, ok := x.X.Type().Underlying().(*types.Slice); ok {
+				if d, ok := c.sharedSlice(x.X, depth+1, seen); ok {
+					return d, true
+				}
+			}
+		case *ssa.Call:
+			if b, ok := x.Common().Value.(*ssa.Builtin); ok {
+				if b.Name() == "append" {
+					if d, ok := c.sharedSlice(x.Common().Args[0], depth+1, seen); ok {
+						return d, true
+					}
+				}
+				continue
+			}
+			g := staticCallee(x)
+			if g == nil || !c.IsLib(g) || len(g.Blocks) == 0 {
+				continue
+			}
+			for _, ret := range returnsOf(g) {
+				if rv, ok := returnedValue(ret, 0); ok {
+					if _, isSl := rv.Type().Underlying().(*types.Slice); !isSl {
+						continue
+					}
+					if d, ok := c.sharedSlice(rv, depth+1, seen); ok {
+						return d + " (returned by " + c.fname(g) + ")", true
+					}
+				}
+			}
+		}
+	}
+	return "", false
+}
+
+// ALIAS1: no append writes into the spare capacity of a slice that lives in a
+// struct field or package variable unless the result replaces that slice. Two
+// keys (or bounds) built by appending to the same cached prefix share one
+// backing array, and the second append overwrites the first: the range scan
+// then runs between the wrong bounds.
+func ruleALIAS1(c *Ctx) []Ob {
+	o := newObs(c, "ALIAS1")
+	for _, fn := range c.LibFuncs {
+		n := 0
+		allCalls(fn, func(ci ssa.CallInstruction) {
+			call, ok := ci.(*ssa.Call)
+			if !ok {
+				return
+			}
+			b, ok := call.Common().Value.(*ssa.Builtin)
+			if !ok || b.Name() != "append" || len(call.Common().Args) < 1 {
+				return
+			}
+			n++
+			key := fmt.Sprintf("%s/append #%d", c.fname(fn), n)
+			desc, shared := c.sharedSlice(call.Common().Args[0], 0, map[ssa.Value]bool{})
+			if !shared {
+				o.add(OK, key, relPath(c, call.Pos()), "appends to a slice that is local, fresh, or clipped")
+				return
+			}
+			// the result replaces the stored slice?
+			stored := false
+			seen := map[ssa.Value]bool{}
+			var fwd func(v ssa.Value)
+			fwd = func(v ssa.Value) {
+				if seen[v] || stored {
+					return
+				}
+				seen[v] = true
+				for _, r := range realReferrers(v) {
+					switch x := r.(type) {
+					case *ssa.Store:
+						if x.Val == v {
+							if _, _, nn := fieldOfAddr(x.Addr); nn != nil {
+								stored = true
+							}
+							if _, ok := x.Addr.(*ssa.Global); ok {
+								stored = true
+							}
+							if al, ok := x.Addr.(*ssa.Alloc); ok {
+								for _, rr := range realReferrers(al) {
+									if l, ok := rr.(*ssa.UnOp); ok && l.Op == token.MUL {
+										fwd(l)
+									}
+								}
+							}
+						}
+					case *ssa.Phi:
+						fwd(x)
+					case *ssa.Call:
+						if bb, ok := x.Common().Value.(*ssa.Builtin); ok && bb.Name() == "append" && x.Common().Args[0] == v {
+							fwd(x)
+						}
+					}
+				}
+			}
+			fwd(call)
+			if stored {
+				o.add(OK, key, relPath(c, call.Pos()), "the result of the append replaces the stored slice (%s)", desc)
+				return
+			}
+			o.add(VIOLATED, key, relPath(c, call.Pos()), "appends into the spare capacity of %s without storing the result back: another append on the same slice overwrites these bytes (two keys or bounds built on one cached prefix alias each other)", desc)
+		})
 	}
 	return o.list
 }
